@@ -30,7 +30,7 @@ func main() {
 			"trusted base: Go runtime (a stop-the-world runtime.Stack snapshot in which every istio/harness goroutine is parked on a channel or condition variable is the quiescence barrier), race detector, the harness's reference evaluator (ref.go) and input model",
 			"transformations handed to krt are pure and keep many-collection output keys unique across parents at every instant (generator invariant, asserted on the reference side)",
 			"not monitored: event streams of Index.AsCollection (documented as imprecise), GetKey on krt.NewStatic inputs (key-agnostic by design), WithJoinUnchecked only over disjoint sources (overlap is documented undefined behaviour)",
-			"member collections are removed from a NestedJoinWithMergeCollection only at quiescent points: concurrent removal crashes the process on the unchanged tree (krtmon repro crash) and would take a whole batch of cases with it; KRTMON_NESTED_RACE=1 re-enables it",
+			"a member collection is added to or removed from a NestedJoinWithMergeCollection only while that member itself is quiescent (membership changes are issued after the phase's mutators have joined and a barrier; a further barrier precedes a change whose member is downstream of an earlier change of the same round): a member that changes while it leaves crashes the process on the unchanged tree (krtmon repro crash) and would take a whole batch of cases with it; KRTMON_NESTED_RACE=1 re-enables it. Other members of the join may still be delivering events, and several members may leave in one batch (outer.DeleteObjects); stream violations of the delete-absent rule on such a join in such a phase are keyed via=nested-member-removal",
 			"inputs on which the unchanged tree is known to violate the property (many-collection keys moving between parents, overlapping keys in a checked JoinCollection, nil label maps handed to FilterSelects) are generated in strata of their own (Program.Risk); only nodes that depend on the feature report under the stratum key, every other node keeps a precise key",
 		},
 		// krt plus the generic helpers it calls into with its locks held: a race between two krt goroutines on
@@ -73,6 +73,7 @@ func opStrings(ops []Op, max int) []string {
 
 func runProgram(c *vh.Ctx, i int) {
 	r := c.Rng("program", i)
+	rb := c.Rng("nested-batch-removal", i)
 	thorough := !c.Quick()
 	// sizes are drawn from the case PRNG only (quick is a prefix of thorough)
 	size := 4 + r.Intn(5)
@@ -141,6 +142,10 @@ func runProgram(c *vh.Ctx, i int) {
 	}
 	// Violation keys: precise (<monitor> kind=<shape>) for nodes the program's risk feature cannot
 	// influence; one key per risk stratum and monitor class for nodes it can.
+	// removalRaced: nested joins that, in the current phase, lost members while the join could still have (or get)
+	// other events to process that were computed after the removal: several members in one batch, or one member
+	// while another membership change of the same round upstream of the join was still propagating.
+	removalRaced := map[int]bool{}
 	key := func(mon string, node int) string {
 		class := "state"
 		if strings.HasPrefix(mon, "stream-") {
@@ -149,6 +154,11 @@ func runProgram(c *vh.Ctx, i int) {
 		switch {
 		case mon == "fetch-selects-nil":
 			return "risk=nil-labels state"
+		case mon == "stream-delete-absent" && p.passOver(node, removalRaced):
+			// nestedjoinmerge.go handleCollectionDelete publishes a Delete (Old = the member's un-merged object) for a key
+			// that an earlier event, computed over the live outer collection, already removed (krtmon repro 9). Rule,
+			// shape and phase identify it, so it is named before the (coarser) risk strata.
+			return "stream-delete-absent via=nested-member-removal"
 		case p.tainted(node):
 			return "risk=" + p.Risk + " " + class
 		case class == "stream" && p.cascade(node):
@@ -228,7 +238,8 @@ func runProgram(c *vh.Ctx, i int) {
 		// handleCollectionDelete; reproduction: `krtmon repro`, scenario 7). A crash would take the whole batch of
 		// cases with it, so removals are issued at a quiescent point after the phase. Additions concurrent with
 		// events can leave the join stale for good on the unchanged tree (repro scenario 8); they stay concurrent
-		// only in the nested-race stratum.
+		// only in the nested-race stratum. The deferred changes of one round are issued back to back: quiescent
+		// for the first, not for the others where joins are chained (see settleFirst / removalRaced below).
 		var removals []Op
 		for m := range lists {
 			var keep []Op
@@ -240,6 +251,86 @@ func runProgram(c *vh.Ctx, i int) {
 				}
 			}
 			lists[m] = keep
+		}
+		// Members leaving in one batch (outer.DeleteObjects): drawn from a stream of its own, so the programs and
+		// histories are the ones generated without it. A join keeps at least one member and has at most one
+		// membership change per round.
+		changed := map[int]bool{}
+		for _, o := range removals {
+			changed[o.Node] = true
+		}
+		for _, nd := range p.Nodes {
+			if nd.Kind != kNested || !w.built[nd.ID] || changed[nd.ID] || os.Getenv("KRTMON_NO_BATCH_REMOVAL") != "" {
+				continue
+			}
+			cur := model.Nested[nd.ID]
+			if len(cur) < 3 || rb.Intn(2) != 0 {
+				continue
+			}
+			// the second leaving member is, where the shape has one, a member that reads the first or is read by it
+			// (nested[nested[a b] a b]): their keys overlap by construction
+			perm := rb.Perm(len(cur))
+			first, second := cur[perm[0]], cur[perm[1]]
+			for _, k := range perm[1:] {
+				if p.reads(cur[k], first, model.Nested) || p.reads(first, cur[k], model.Nested) {
+					second = cur[k]
+					break
+				}
+			}
+			gone := map[int]bool{first: true, second: true}
+			var keep, out []int
+			for _, m := range cur {
+				if gone[m] {
+					out = append(out, m)
+				} else {
+					keep = append(keep, m)
+				}
+			}
+			model.Nested[nd.ID] = keep
+			removals = append(removals, Op{Node: nd.ID, Kind: "ndelm", Members: out})
+			g.kinds["nested-remove-batch"]++
+		}
+		// The membership changes of a round are issued back to back, so only the first is made on a quiescent system:
+		// a later one can meet events the earlier ones caused. mem: every member a join has or had in this round.
+		mem := map[int][]int{}
+		for id, ms := range model.Nested {
+			mem[id] = append([]int(nil), ms...)
+		}
+		touched := func(o Op) []int {
+			if o.Kind == "ndelm" {
+				return o.Members
+			}
+			return []int{o.Member}
+		}
+		for _, o := range removals {
+			mem[o.Node] = append(mem[o.Node], touched(o)...)
+		}
+		for k := range removalRaced {
+			delete(removalRaced, k)
+		}
+		// settleFirst[j]: the member being added or removed is itself downstream of an earlier change of the round
+		// (it may be gaining or losing keys right now): the known crash / stale-merge conditions (repro 7, 8) that the
+		// assumption "membership changes at quiescent points" excludes. A barrier is inserted before such an operation.
+		settleFirst := make([]bool, len(removals))
+		for j, o := range removals {
+			for i, e := range removals {
+				if i == j || e.Node == o.Node {
+					continue
+				}
+				if i < j {
+					for _, m := range touched(o) {
+						if m == e.Node || p.reads(m, e.Node, mem) {
+							settleFirst[j] = true
+						}
+					}
+				}
+				if o.Kind != "nadd" && p.reads(o.Node, e.Node, mem) {
+					removalRaced[o.Node] = true // a sibling member may still deliver events for the leaving member's keys
+				}
+			}
+			if o.Kind == "ndelm" {
+				removalRaced[o.Node] = true
+			}
 		}
 		// subscribers registering while events flow
 		var midSubs []Op
@@ -292,8 +383,18 @@ func runProgram(c *vh.Ctx, i int) {
 			}
 			c.Count("barrier_rounds", 1)
 			for j := range removals {
+				if settleFirst[j] {
+					if !waitIdle(&ist, 90*time.Second) {
+						c.Count("barrier_lost", 1)
+						c.Inconclusive("quiescence barrier not reached within the watchdog: " + ist.Busy)
+						return
+					}
+					c.Count("barrier_rounds", 1)
+					c.Count("membership_changes_after_extra_barrier", 1)
+				}
 				w.apply(&removals[j])
 			}
+			c.Count("nested_joins_removal_raced", len(removalRaced))
 			pl.Ops = append(pl.Ops, opStrings(removals, 10))
 			phases[len(phases)-1] = pl
 		}
@@ -362,6 +463,11 @@ func runProgram(c *vh.Ctx, i int) {
 					// key, no duplicate add, no update/delete of an unknown key, nothing dropped, replay reproduces the
 					// content): observed and counted, never a verdict.
 					c.Count("noop_updates_on_noop_free_nodes", 1)
+					if p.passOver(s.Node, removalRaced) {
+						// same root cause as via=nested-member-removal: handleCollectionDelete republishes a merge that an
+						// earlier event already computed without the leaving member, without an Equal test (repro 6, 9b)
+						c.Count("noop_updates_after_nested_member_removal", 1)
+					}
 					continue
 				}
 				k := key("stream-"+v.Rule, s.Node)
